@@ -411,7 +411,7 @@ NUM_SPELL = [lambda v: repr(float(v)), lambda v: (str(int(v)) if float(v).is_int
 def loader_cases(tier):
     ns = [1, 2, 3, 4] if tier == "quick" else [1, 2, 3, 4, 5, 80]
     cases = []
-    for kind in ("tlt-sorted", "tlt-unsorted", "tlt-repeated", "dose", "ctffind4", "gctf", "gctf-phase", "gctf-extra", "mdoc-dose-prior", "array"):
+    for kind in ("tlt-sorted", "tlt-unsorted", "tlt-repeated", "dose", "ctffind4", "gctf", "gctf-phase", "gctf-extra", "gctf-reordered", "mdoc-dose-prior", "array"):
         for n in ns:
             for spell in range(len(NUM_SPELL)):
                 for nl in (True, False):
@@ -526,6 +526,10 @@ def exec_loader(case, obs):
         if kind == "gctf-extra":
             labels = ["rlnVoltage"] + labels + ["rlnFinalResolution"]
             cols = [["300.000000"] * n] + cols + [[sp(3.5 + i).strip() for i in range(n)]]
+        if kind == "gctf-reordered":   # columns are found by label: angle and phase shift BEFORE the two defocus values, V before U
+            labels = ["rlnDefocusAngle", "rlnPhaseShift", "rlnMicrographName", "rlnDefocusV", "rlnDefocusU"]
+            cols = [cols[3], [sp(p).strip() for p in PH], cols[0], cols[2], cols[1]]
+            phase = PH
         rows = [[c[i] for c in cols] for i in range(n)]
         with open("g.star", "w") as f:
             f.write(star_text(labels, rows, numbered=(spell % 2 == 0)) if nl else star_text(labels, rows, numbered=(spell % 2 == 0)).rstrip("\n"))
@@ -542,7 +546,7 @@ def exec_loader(case, obs):
                   lambda: f"{g[:, :2].tolist()} vs {(Uw * 1e-4).tolist()} {(Vw * 1e-4).tolist()}")
         obs.check(np.allclose(g[:, 4], (Uw + Vw) / 2 * 1e-4, rtol=tol, atol=0), site, "defocus-mean", lambda: f"{g[:, 4].tolist()}")
         obs.check(np.allclose(g[:, 2], [float(sp(a)) for a in A], rtol=max(tol, 1e-6), atol=1e-6), site, "astigmatism-angle", lambda: f"{g[:, 2].tolist()}")
-        obs.check(np.allclose(g[:, 3], [float(sp(p)) if kind in ("ctffind4", "gctf-phase") else 0.0 for p in phase], rtol=max(tol, 1e-6), atol=1e-6), site, "phase-shift",
+        obs.check(np.allclose(g[:, 3], [float(sp(p)) if kind in ("ctffind4", "gctf-phase", "gctf-reordered") else 0.0 for p in phase], rtol=max(tol, 1e-6), atol=1e-6), site, "phase-shift",
                   lambda: f"{g[:, 3].tolist()}")
         obs.outcome = tuple(np.round(g[0], 5).tolist()) + (n,)
 
